@@ -71,7 +71,8 @@ pub fn write(
     write_mqtt_string(buffer, "MQTT");
 
     buffer.put_u8(0x04);
-    let flags_index = 1 + count + 2 + 4 + 1;
+    // the flags byte comes next, wherever in the buffer this packet starts
+    let flags_index = buffer.len();
 
     let mut connect_flags = 0;
     if connect.clean_session {
